@@ -27,7 +27,7 @@ INFO = {
                         "and '/' and '%' only when Object::is_zero(right) is false (is_zero itself IS decided: harness family is_zero_*)"],
     },
     "C09": {
-        "functions": ["<&Object as Add|Sub|Mul|Div|Rem|Neg|BitAnd|BitOr|BitXor|Shl|Shr>", "Object::eq", "Object::partial_cmp (through PartialOrd::gt/ge)", "Object::is_zero"],
+        "functions": ["<&Object as Add|Sub|Mul|Div|Rem|Neg|BitAnd|BitOr|BitXor|Shl|Shr>", "Object::eq", "Object::partial_cmp (through PartialOrd::gt/ge; numeric, Char and Str arms)", "Object::is_zero"],
         "bounds": "operand kinds enumerated, operand values unbounded (64-bit, all f64 bit patterns); for / and % engine K checks values with the right operand concrete per stamp "
                   "(3, -7, 3.0, 0.5, -2.0, byte 7) and the left operand symbolic, engine M with both symbolic (except float %)",
         "outside": "operand-kind dispatch and error cases of VM::binary_op (strings, chars, arrays, 'every other combination is a runtime error'), string concatenation/repetition",
